@@ -46,5 +46,94 @@ def remove_if_targets():
             Target('detail_size', [sz()], H), Target('detail_copy', [cp()], H)]
 
 
+def smt2c(t):
+    """an SMT-LIB term of the clause functions shared with the SMT side, printed as a C expression"""
+    toks = t.replace('(', ' ( ').replace(')', ' ) ').split()
+    pos = [0]
+
+    def parse():
+        tok = toks[pos[0]]
+        pos[0] += 1
+        if tok != '(':
+            return tok
+        out = []
+        while toks[pos[0]] != ')':
+            out.append(parse())
+        pos[0] += 1
+        return out
+
+    def pr(e):
+        if isinstance(e, str):
+            return e
+        op, args = e[0], [pr(a) for a in e[1:]]
+        if op in ('and', 'or'):
+            return '(' + (' && ' if op == 'and' else ' || ').join(args) + ')'
+        if op == '=>':
+            return f'(!{args[0]} || {args[1]})'
+        if op == 'not':
+            return f'(!{args[0]})'
+        if op == '-' and len(args) == 1:
+            return f'(-{args[0]})'
+        if op in ('+', '-', '*', '<', '<=', '>', '>='):
+            return '(' + f' {op} '.join(args) + ')'
+        if op == '=':
+            return f'({args[0]} == {args[1]})'
+        raise ValueError(f'smt2c: operator {op}')
+    return pr(parse())
+
+
+def view_targets():
+    """pointer shell of tvector / ttensor / tmatrix / tslice / operator()(index) for ranks 1..3: the callee facts are the
+    clauses of tmodel.ens_view / ens_slice (the ones tspec.py proves), instantiated with the C names"""
+    import tmodel
+    H = D + 'views.h'
+    types = [(r'tensor_t<nano::tensor_vector_storage_t, double, \d|tensor_base_t<double, \d|tensor_vector_storage_t<double, \d', 'struct nv_tens'),
+             (r'Eigen::Map<', 'struct nv_vmap'), (r'tensor_map_t<double, \d|tensor_t<nano::tensor_marray_storage_t, double, \d', 'struct nv_tmap'),
+             (r'tensor_dims_t<\d|std::array<long, \d', 'struct nv_dims')]
+    members = [(r'^offset0\|', 'nv_offset0({self})'), (r'^rows\|', 'nv_rows({self})'), (r'^cols\|', 'nv_cols({self})'),
+               (r'^dims\|', 'nv_dims_of({self})'), (r'^data\|', 'nv_data({self})')]
+    out = []
+
+    def sel(R, name, nparams):
+        return lambda d: (f'vector_storage_tEdLm{R}EE' in d.get('mangledName', '') and f'{name}IPd' in d.get('mangledName', '')
+                          and len(astload.param_types(d)) == nparams)
+    for R in (1, 2, 3):
+        P = ['self->size'] + ['nv_len'] * R            # only P_0 and P_m occur in the clauses used here
+        for m in range(R):
+            view = {'off': 'nv_off', 'len': 'nv_len'}
+            clauses = tmodel.ens_view(P, ['0'] * m, view, 'view')[1:]      # length == P_m; 0 <= off and off + len <= P_0
+            facts = smt2c(tmodel.AND(*[c for _, c in clauses]))
+            for kind, mapfn in (('vector', [(r'^map_vector\|', 'nv_map_vector({0}, {1})'), (r'^size\|', 'nv_size_dims0()')]),
+                                ('tensor', [(r'^map_tensor\|', 'nv_map_subtensor({0})')])):
+                f = Fn(f't{kind}', TU, f't{kind}', flt='nano::', select=sel(R, f't{kind}', 1 + m), self_struct='struct nv_tens', types=types,
+                       members=members, calls=mapfn, uf_float=False)
+                out.append(Target(f't{kind}_ptr_r{R}_m{m}', [f], H, defines=['NV_SMT_FACTS=' + facts]))
+        if R >= 2:
+            view = {'off': 'nv_off', 'len': 'nv_len'}
+            facts = smt2c(tmodel.AND(*[c for _, c in tmodel.ens_view(P, ['0'] * (R - 2), view, 'view')[1:]] +
+                                     []))
+            f = Fn('tmatrix', TU, 'tmatrix', flt='nano::', select=sel(R, 'tmatrix', R - 1), self_struct='struct nv_tens', types=types,
+                   members=members, calls=[(r'^map_matrix\|', 'nv_map_matrix({0}, {1}, {2})')], uf_float=False)
+            out.append(Target(f'tmatrix_ptr_r{R}_m{R - 2}', [f], H, defines=['NV_SMT_FACTS=' + facts]))
+        # tslice: offset0(begin) and the slice extent (end - begin) * P_1 inside [0, P_0]
+        class W:      # the two accessors ens_slice needs, over the C names
+            def P(self, tid):
+                return ['self->size', 'nv_len'] + ['1'] * (R - 1)
+
+            def dim(self, tid, k):
+                return f'nv_d[{k}]'
+        res = {'off': 'nv_off', 'dims': ['(- end begin)'] + [f'nv_d[{k}]' for k in range(1, R)]}
+        cl = tmodel.ens_slice(W(), 'self', 'begin', 'end', res)
+        # slice inside the buffer; the assert in tslice.  The product (end - begin) * P_1 is NAMED nv_ext on the C side
+        facts = smt2c(tmodel.AND(cl[-1][1].replace('(* (- end begin) nv_len)', 'nv_ext'), '(and (<= 0 begin) (<= begin end))'))
+        f = Fn('tslice', TU, 'tslice', flt='nano::', select=sel(R, 'tslice', 3), self_struct='struct nv_tens', types=types, members=members,
+               calls=[(r'^map_tensor\|', 'nv_map_slice({0}, {1}, begin, end)'), (r'^operator\[\]\|', '{0}.d[{1}]')], uf_float=False)
+        out.append(Target(f'tslice_ptr_r{R}', [f], H, defines=['NV_SMT_FACTS=' + facts]))
+        at = Fn('at', TU, 'operator()', flt='nano::', select=lambda d, R=R: d.get('mangledName', '') == f'_ZN4nano8tensor_tINS_23tensor_vector_storage_tEdLm{R}EEclEl',
+                self_struct='struct nv_tens', types=types, members=members, uf_float=False, ret='double&')
+        out.append(Target(f'at_ptr_r{R}', [at], H))
+    return out
+
+
 def build():
-    return range_targets() + integral_targets() + remove_if_targets()
+    return range_targets() + integral_targets() + remove_if_targets() + view_targets()
